@@ -72,3 +72,5 @@ def build(u):
     u.harness_files = [os.path.join(VERIF, 'harness', 'civil.c')]
     import civil_loops
     u.loop_contracts.update(civil_loops.LOOPS)
+    u.pre_loop.update(civil_loops.GHOST)
+    u.stmt_hooks.update(civil_loops.HOOKS)
